@@ -100,10 +100,17 @@ impl<RS: Read + Seek> Read for SeekableChain<RS> {
             self.rel_pos += read as u64;
             self.abs_pos += read as u64;
             // check if we need to switch to the next reader
+            let mut switched_reader = false;
             if self.rel_pos >= *max_pos {
                 self.cur_idx += 1;
                 self.rel_pos = 0;
+                switched_reader = true;
                 // seek new reader to 0? reader.seek(SeekFrom::Start(pos))?; for now do it at the beginning of read
+            }
+            if read == 0 && switched_reader && !buf.is_empty() {
+                // the reader was empty (or fully read already). Returning 0 would signal EOF
+                // even though there might be more readers. So continue with the next reader:
+                return self.read(buf);
             }
             // todo check whether optimizing to fill full buffer is faster
             Ok(read)
